@@ -65,8 +65,19 @@ func (p pairCfg) String() string {
 	return fmt.Sprintf("protocols=%v sel=%s offer=%v extsel=%s clihdr=%d srvhdr=%d cbuf=%d/%d sbuf=%d/%d limit=%d/%d http=%v", p.Protocols, p.ProtoSel, p.ExtOffer, p.ExtSel, p.CliHdr, p.SrvHdr, p.CRBuf, p.CWBuf, p.SRBuf, p.SWBuf, p.CLimit, p.SLimit, p.HTTPServer)
 }
 
-func protoSelector(kind string) func(string) bool {
+func protoSelector(kind string, offered ...string) func(string) bool {
+	exact := func(k int) func(string) bool {
+		if len(offered) == 0 {
+			return func(string) bool { return false }
+		}
+		want := offered[k%len(offered)]
+		return func(s string) bool { return s == want }
+	}
 	switch kind {
+	case "exact-last":
+		return exact(len(offered) - 1 + len(offered))
+	case "exact-second":
+		return exact(1)
 	case "none":
 		return func(string) bool { return false }
 	case "all":
@@ -126,7 +137,7 @@ func startHTTP() {
 			},
 			Handler: http.HandlerFunc(func(w http.ResponseWriter, r *http.Request) {
 				t := r.Context().Value(runKey{}).(*tagged)
-				u := ws.HTTPUpgrader{Protocol: protoSelector(t.cfg.ProtoSel)}
+				u := ws.HTTPUpgrader{Protocol: protoSelector(t.cfg.ProtoSel, t.cfg.Protocols...)}
 				switch t.cfg.ExtSel {
 				case "nil":
 				case "extension-all":
@@ -180,7 +191,7 @@ func runPair(c *mon.C, cfg pairCfg) bool {
 	} else {
 		go func() {
 			u := ws.Upgrader{ReadBufferSize: cfg.SRBuf, WriteBufferSize: cfg.SWBuf}
-			if sel := protoSelector(cfg.ProtoSel); sel != nil {
+			if sel := protoSelector(cfg.ProtoSel, cfg.Protocols...); sel != nil {
 				u.Protocol = func(b []byte) bool { return sel(string(b)) }
 			}
 			switch cfg.ExtSel {
@@ -265,8 +276,9 @@ func runPair(c *mon.C, cfg pairCfg) bool {
 }
 
 var (
-	protoLists = [][]string{nil, {"a"}, {"a", "b"}, {"b", "a", "c"}}
-	protoSels  = []string{"nil", "none", "all", "slice"}
+	// the last four: names differing only in letter case, names that are prefixes of each other, token punctuation
+	protoLists = [][]string{nil, {"a"}, {"a", "b"}, {"b", "a", "c"}, {"Chat", "chat"}, {"chat", "CHAT", "Chat", "b"}, {"chat", "chat.v2", "cha"}, {"v1.json+x", "v1.json", "C"}}
+	protoSels  = []string{"nil", "none", "all", "slice", "exact-last", "exact-second"}
 	extOffers  = [][]string{nil, {"permessage-deflate; client_max_window_bits; server_no_context_takeover"}, {"permessage-deflate", "permessage-deflate; server_max_window_bits=10"}, {"x-unknown; p=1", "permessage-deflate; client_no_context_takeover"}}
 	extSels    = []string{"nil", "extension-all", "extension-none", "negotiate-accept", "negotiate-decline", "negotiate-error", "negotiate-wsflate"}
 	bufs       = []int{0, 16, 17, 64, 256, 4096}
@@ -283,7 +295,7 @@ func subPairs() mon.Sub {
 		},
 		Do: func(c *mon.C) {
 			i := c.I
-			cfg := pairCfg{Protocols: protoLists[i%4], ProtoSel: protoSels[i/4%4], ExtOffer: extOffers[i/16%4], ExtSel: extSels[i/64%7]}
+			cfg := pairCfg{Protocols: protoLists[i%8], ProtoSel: protoSels[i/8%6], ExtOffer: extOffers[i/48%4], ExtSel: extSels[i/192%7]}
 			cfg.CRBuf, cfg.CWBuf = bufs[c.Rng.Intn(len(bufs))], bufs[c.Rng.Intn(len(bufs))]
 			cfg.SRBuf, cfg.SWBuf = bufs[c.Rng.Intn(len(bufs))], bufs[c.Rng.Intn(len(bufs))]
 			lim := []int{0, 1, 2, 13, -1}
@@ -737,7 +749,7 @@ func main() {
 	mon.Main(&mon.Spec{
 		Property: "C11",
 		Level:    "exploration",
-		Rule: "(pair) library dialer <-> library upgrader (ws.Upgrader, and ws.HTTPUpgrader behind net/http) over an in-memory duplex, two goroutines, configurations = 4 protocol lists x 4 selectors x 4 extension offers x 7 extension selectors/negotiators x I/O buffer sizes {0,16,17,64,256,4096} on each side x read limiters {none,1,2,13,random} x extra header lines of length buf-2..buf+2 and 3*buf: both succeed with equal protocol/extensions or both fail. " +
+		Rule: "(pair) library dialer <-> library upgrader (ws.Upgrader, and ws.HTTPUpgrader behind net/http) over an in-memory duplex, two goroutines, configurations = 8 protocol lists (incl. names differing only in case, prefixes of each other) x 6 selectors (incl. exactly the last / second offered name) x 4 extension offers x 7 extension selectors/negotiators x I/O buffer sizes {0,16,17,64,256,4096} on each side x read limiters {none,1,2,13,random} x extra header lines of length buf-2..buf+2 and 3*buf: both succeed with equal protocol/extensions or both fail. " +
 			"(single peer) the same request / response derivation run under 5 chunk plans and buffer sizes must give identical outcome, handshake data and bytes written (dialer requests compared with the random key masked). (debug wrappers) DebugUpgrader / DebugDialer with each callback combination vs the unwrapped run: same outcome and data, callbacks get exactly the bytes exchanged, post-handshake bytes preserved, each DebugDialer value used for three dials in a row with and without an application WrapConn; responses: valid 101 with trailing frames {0,1,100,5000}, non-101 with bodies, invalid 101, LF-only, empty/truncated. distinct = configuration classes.",
 		Assumptions: []string{"a pair stuck for 60 s is inconclusive, not a violation", "requests that net/http itself refuses are not sent through DebugUpgrader"},
 		Subs:        []mon.Sub{subPairs(), subUpgraderChunking(), subDialerChunking(), subDebugUpgrader(), subDebugDialer()},
